@@ -103,6 +103,11 @@ def cases(tier, seed):
         for op in ({'op': 'then_reset', 'pause': 0.0}, {'op': 'then_reset', 'pause': 0.02}, {'op': 'then_close'}):
             cs.append(dict({'T': T, 'conn': 0, 'at': 'kexinit'}, **op))
             cs.append(dict({'T': T, 'conn': 0, 'at': 'kexinit', 'eager': True}, **op))   # ... not even its identification string
+    # lines before the identification string AND the identification string cut in two: the first write ends inside the banner line
+    for T in ('T1', 'T2'):
+        for npre in (1, 3):
+            for cut in (4, 12, 16):
+                cs.append({'T': T, 'op': 'presplit', 'n': npre, 'cut': cut, 'conn': 0, 'at': 'banner'})
     # T8: one of the three host-key probes (or a group-exchange probe) goes wrong, the others and the group-exchange phase follow
     cs.append({'T': 'T8', 'op': 'none'})
     for conn in (1, 2, 3):
@@ -325,6 +330,9 @@ def build(c):
         c = dict(c, conn=0 if c['T'] != 'T5' or c['at'] != 'banner' else 1)
     elif op == 'pre':
         s['pre'] = ['preamble line %d' % i for i in range(c['n'])]
+    elif op == 'presplit':
+        s['pre'] = ['preamble line %d' % i for i in range(c['n'])]
+        f = {'op': 'split', 'offset': sum(len(x) + 2 for x in s['pre']) + c['cut'], 'pause': 0.25}
     elif op == 'segment':
         s['segment'] = c['n']
     if f is not None:
